@@ -9,7 +9,17 @@ pub mod common;
 #[cfg(kani)]
 mod warmup;
 #[cfg(kani)]
+mod c13;
+#[cfg(kani)]
+mod c14;
+#[cfg(kani)]
 mod c16;
+#[cfg(kani)]
+mod c17;
+#[cfg(kani)]
+mod c01;
+#[cfg(kani)]
+mod c02;
 #[cfg(kani)]
 mod c03;
 #[cfg(kani)]
@@ -17,4 +27,13 @@ mod c04;
 #[cfg(kani)]
 mod c05;
 #[cfg(kani)]
+mod c06;
+#[cfg(kani)]
+mod c07;
+#[cfg(kani)]
+mod c08;
+#[cfg(kani)]
+mod c09;
+#[cfg(kani)]
 mod gen;
+#[cfg(kani)] mod exp;
